@@ -55,6 +55,14 @@ pub struct Snap {
 
 pub type FilterLog = Arc<Mutex<Vec<(Vec<u8>, Vec<u8>, u8, Vec<u8>)>>>;
 
+/// Keys of the "wild" class (`x~…`) receive undisciplined weak deletes (a weak delete on a key
+/// that was overwritten may legitimately resurrect older versions), so the model says nothing
+/// about them: they are excluded from every model comparison but take part in everything else
+/// (flushes, compactions, blob GC statistics).
+pub fn is_wild(k: &[u8]) -> bool {
+    k.starts_with(b"x~")
+}
+
 /// Key class by first byte: keys starting with `w` are write-once / single-delete class.
 pub fn is_once_class(k: &[u8]) -> bool {
     k.first() == Some(&b'w')
@@ -242,6 +250,7 @@ pub struct Engine {
     pub last_audit: Option<Audit>,
     pub sessions: u64,
     pub cur_merge: bool,
+    pub has_wild: bool,
     /// model-independent oracles that failed without being decisive: switched off for the
     /// rest of the run (recorded as an observation)
     pub disabled: BTreeSet<String>,
@@ -260,7 +269,7 @@ fn bound_ref(b: &Bound<Vec<u8>>) -> Bound<&[u8]> {
 impl Engine {
     pub fn new(spec: RunSpec, root: PathBuf, opts: EngineOpts, shared: Option<Shared>) -> Self {
         let mut probe: BTreeSet<Vec<u8>> = BTreeSet::new();
-        for k in &spec.keys {
+        for k in spec.keys.iter().filter(|k| !is_wild(&k.0)) {
             probe.insert(k.0.clone());
             let mut a = k.0.clone();
             a.push(0);
@@ -269,7 +278,8 @@ impl Engine {
                 probe.insert(k.0[..k.0.len() - 1].to_vec());
             }
         }
-        Self {
+        let has_wild = spec.keys.iter().any(|k| is_wild(&k.0));
+        let mut me = Self {
             spec,
             root,
             tree: None,
@@ -288,8 +298,11 @@ impl Engine {
             last_audit: None,
             sessions: 0,
             cur_merge: false,
+            has_wild: false,
             disabled: BTreeSet::new(),
-        }
+        };
+        me.has_wild = has_wild;
+        me
     }
 
     pub fn tree(&self) -> &AnyTree {
@@ -973,7 +986,8 @@ impl Engine {
             }
         }
         // exact content with sequence numbers
-        let want = self.model.durable_view();
+        let mut want = self.model.durable_view();
+        want.retain(|k, _| !is_wild(k));
         let got = self.dump(u64::MAX)?;
         if got != want {
             return Err(self.viol(
@@ -1006,7 +1020,9 @@ impl Engine {
             let (k, v) = self.err("iter", g.into_inner())?;
             let e = self.err("get_internal_entry", self.tree().get_internal_entry(&k, s))?;
             let seqno = e.map_or(u64::MAX, |e| e.key.seqno);
-            out.insert(k.to_vec(), (v.to_vec(), seqno));
+            if !is_wild(&k) {
+                out.insert(k.to_vec(), (v.to_vec(), seqno));
+            }
         }
         Ok(out)
     }
@@ -1037,6 +1053,7 @@ impl Engine {
     ) -> R<()> {
         let (s, at, _) = self.resolve_snap(sel);
         let mut view = self.model.view(s, at);
+        view.retain(|k, _| !is_wild(k));
         let index = if overlay.is_empty() {
             None
         } else {
@@ -1098,6 +1115,9 @@ impl Engine {
             };
             let Some(g) = item else { break };
             let (k, v) = self.err("scan item", g.into_inner())?;
+            if is_wild(&k) {
+                continue;
+            }
             if fwd {
                 front.push((k.to_vec(), v.to_vec()));
             } else {
@@ -1206,8 +1226,12 @@ impl Engine {
         }
         let want_v: Vec<(Vec<u8>, Vec<u8>)> = want
             .iter()
+            .filter(|(k, _)| !is_wild(k))
             .map(|(k, (v, _))| (k.clone(), v.clone()))
             .collect();
+        if self.has_wild {
+            got.retain(|(k, _)| !is_wild(k));
+        }
         if got != want_v {
             return Err(self.viol(
                 tag,
@@ -1218,6 +1242,10 @@ impl Engine {
                     fmt_kv(&want_v)
                 ),
             ));
+        }
+        if self.has_wild {
+            // len / is_empty / first / last would count the wild keys
+            return Ok(());
         }
         let n = self.err("len", tree.len(s, None))?;
         if n != want_v.len() {
